@@ -41,3 +41,18 @@ Print Assumptions C03_groups_found_after_extended_block.
 Theorem C03_data_found_after_extended_block : stmt_get_root_data_enc.
 Proof. exact get_root_data_enc. Qed.
 Print Assumptions C03_data_found_after_extended_block.
+
+From Sbepp Require Import Cursor CursorSpec CursorProofs.
+
+Theorem C03_fields_found_at_any_depth : stmt_get_field_any_path_enc.
+Proof. exact get_field_any_path_enc. Qed.
+Print Assumptions C03_fields_found_at_any_depth.
+
+Theorem C03_data_found_at_any_depth : stmt_get_data_any_path_enc.
+Proof. exact get_data_any_path_enc. Qed.
+Print Assumptions C03_data_found_at_any_depth.
+
+(* cursor access and visiting on extended images *)
+Theorem C03_cursor_traversal_on_extended_images : stmt_trav_message_enc''.
+Proof. exact trav_message_enc''. Qed.
+Print Assumptions C03_cursor_traversal_on_extended_images.
